@@ -176,7 +176,7 @@ def gen(rng, tier):
     # storms: many issuers, long op lists, a longer list to scan (the check-then-insert of a rank must be one step)
     nst = 16 if tier == "quick" else 300
     for _ in range(nst):
-        cases.append("P %d %d %d %d %d %d" % (rng.getrandbits(30), rng.choice([4, 8]), rng.choice([0, 2, 4]),
+        cases.append("P %d %d %d %d %d %d" % (rng.getrandbits(30), rng.choice([2, 4]), rng.choice([0, 2, 4]),
                                               rng.choice([4, 8]), 32, rng.choice([3, 6, 12])))
     stats["p_storm"] = nst
     return cases, stats
@@ -221,8 +221,20 @@ def history_stage(rep, sc, lib, cov, tier, seed):
     open(cf, "w").write("\n".join(cases) + "\n")
     env = dict(os.environ)
     env["VH_PERTURB"] = str(seed)
+    env["VH_WATCHDOG"] = "30"
     rc, out, err = vlib.run([hexe, cf, "hist"], timeout=900, env=env)
     hlines = out.split("\n")[:-1]
+    if rc != 0 and "harness watchdog" in err:
+        # a watchdog expiry may be a slow case on a loaded machine: the case is run alone three times with a long
+        # watchdog, and the batch once more, before it counts as a hang
+        k = min(len(hlines), len(cases) - 1)
+        one = os.path.join(sc, "hist_one.txt")
+        open(one, "w").write(cases[k] + "\n")
+        e2 = dict(env); e2["VH_WATCHDOG"] = "90"
+        if all(vlib.run([hexe, one, "hist"], timeout=300, env=e2)[0] == 0 for _ in range(3)):
+            vlib.log("history stage: watchdog expired on '%s' in the batch, not when run alone; batch repeated" % cases[k])
+            rc, out, err = vlib.run([hexe, cf, "hist"], timeout=1800, env=e2)
+            hlines = out.split("\n")[:-1]
     if rc != 0 or len(hlines) != len(cases):
         k = min(len(hlines), len(cases) - 1)
         rep.violation("hist-crash-%d.json" % seed,
